@@ -16,6 +16,7 @@ import types
 from concurrent.futures import ThreadPoolExecutor
 
 from insights.core import dr, plugins
+from insights.core.context import SerializedArchiveContext
 from insights.core.exceptions import (CalledProcessError, ContentException, SkipComponent,
                                       TimeoutException)
 from insights.core.spec_factory import RegistryPoint, SpecSet
@@ -50,6 +51,7 @@ class Program(object):
         self.elcount = {}
         self.specsets = []
         self.variant = int(case.get("variant", 0))
+        self.flip = int(case.get("flip", 0))
         self.lock = threading.Lock()
         self.module = types.ModuleType("verif_generated_%d" % (id(self) % 100000))
         sys.modules[self.module.__name__] = self.module
@@ -244,8 +246,13 @@ class Program(object):
         return out
 
     def graph(self):
-        return dict((self.comp[c], set(dr.get_dependencies(self.comp[c])))
-                    for c in range(1, self.n + 1) if self.case["prog"][c - 1]["ingraph"])
+        ids = [c for c in range(1, self.n + 1) if self.case["prog"][c - 1]["ingraph"]]
+        if (self.variant + self.flip) % 2:
+            ids.reverse()          # dict order is an input the engine must not depend on
+        g = {}
+        for c in ids:
+            g[self.comp[c]] = set(dr.get_dependencies(self.comp[c]))
+        return g
 
     def cleanup(self):
         objs = list(self.comp.values())
@@ -404,6 +411,8 @@ def run_case(case, driver, npad, listlen, obsfail, idtag=""):
             if obsfail:
                 for o in rec.extra_observers():
                     b.add_observer(o)
+            if case.get("arch"):
+                b[SerializedArchiveContext] = SerializedArchiveContext(root="/")
             for c in range(1, prog.n + 1):
                 if case["prog"][c - 1]["seeded"]:
                     # a seeded component never runs, so its (unused) outcome field picks the seed value
@@ -437,30 +446,32 @@ def run_case(case, driver, npad, listlen, obsfail, idtag=""):
                 order = [prog.comp[a["c"]] for a in case["att"]]
                 rec.start_sub(graph, b)
                 dr.run_components(order, graph, b)
-            elif driver == "closure":
-                # the caller names targets; the engine derives the graph (determine_components /
-                # get_dependency_graph); what it evaluates is observed at run_components
+            elif driver in ("closure", "run"):
+                # "run": the caller hands over a graph; "closure": the caller names targets and the engine
+                # derives the graph (determine_components / get_dependency_graph).  What the engine takes as
+                # the graph is observed at determine_components, what it evaluates (after the pruning done
+                # for archive contexts) at run_components.
                 b = mkbroker()
-                orig_rc = dr.run_components
+                orig_rc, orig_dc = dr.run_components, dr.determine_components
                 targets = [prog.comp[c] for c in range(1, prog.n + 1) if case["prog"][c - 1]["ingraph"]]
+
+                def dc_wrapper(components):
+                    g = orig_dc(components)
+                    observed.update(prog.cid(k) for k in g)
+                    return g
 
                 def rc_wrapper(ordered, components, broker):
                     rec.start_sub(components, broker)
-                    observed.update(prog.cid(k) for k in components)
                     return orig_rc(ordered, components, broker)
-                dr.run_components = rc_wrapper
+                dr.run_components, dr.determine_components = rc_wrapper, dc_wrapper
                 try:
-                    form = prog.variant % 3
-                    dr.run(targets[0] if len(targets) == 1 and form == 0 else (set(targets) if form == 1 else targets), b)
+                    if driver == "run":
+                        dr.run(graph, b)
+                    else:
+                        form = prog.variant % 3
+                        dr.run(targets[0] if len(targets) == 1 and form == 0 else (set(targets) if form == 1 else targets), b)
                 finally:
-                    dr.run_components = orig_rc
-            elif driver == "run":
-                b = mkbroker()
-                dr.run = run_wrapper
-                try:
-                    dr.run(graph, b)
-                finally:
-                    dr.run = orig_run
+                    dr.run_components, dr.determine_components = orig_rc, orig_dc
             else:
                 dr.run = run_wrapper
                 if not shared:
@@ -486,7 +497,7 @@ def run_case(case, driver, npad, listlen, obsfail, idtag=""):
         mode = "single" if driver in ("forced", "run", "closure") else ("pool" if pooled else "incr")
         return {"id": "%s/%s%s%s" % (case["id"], driver, idtag, "/obsfail" if obsfail else ""),
                 "final": None if escaped else rec.final(),
-                "prog": prog.registered(npad, observed if driver == "closure" else None), "closure": driver == "closure", "strict": True,
+                "prog": prog.registered(npad, observed if driver == "closure" else None), "closure": driver == "closure", "strict": True, "arch": bool(case.get("arch")),
                 "ss": bool(case["ss"]), "mode": mode,
                 "workers": max(workers, len(rec.threads), 1), "events": rec.events}
     finally:
@@ -501,6 +512,7 @@ def main():
     n = 0
     every = inp.get("obsfail_every", 0)
     for case in inp["cases"]:
+        case["flip"] = int(inp.get("flip", 0))
         for drv in inp["drivers"]:
             if drv == "forced" and not case.get("att"):
                 continue
@@ -508,6 +520,8 @@ def main():
                 continue
             if drv != "forced" and not any(p["ingraph"] for p in case["prog"]):
                 continue    # dr.run({}) means "run the default group", not "run nothing"
+            if case.get("arch") and drv not in ("run", "closure"):
+                continue    # the pruning for archive contexts is done by dr.run in a single pass
             n += 1
             traces.append(run_case(case, drv, inp["npad"], inp["listlen"], bool(every and n % every == 0),
                                    inp.get("idtag", "")))
